@@ -670,6 +670,15 @@ def _affine_range(nn, q, it, lo_expect, hi_role):
     return (ok_lo, ok_hi, f"range({show(lo, 20)}, {show(hi, 40)})")
 
 
+def check_edit_generators(r, rule):
+    """The breadth-first ball (A.4) is exact only if each round applies the exact one-edit neighbourhoods (A.3): the generator rules of C12
+    are hypotheses of every property that searches through hash_based / LookupDB."""
+    from .C12 import check_generator, D as _D
+    check_generator(r, rule, _D + "levenshtein_neighbors", {
+        "DEL": {"positions": "n", "positions_text": "0 .. len(x)-1"}, "SUB": {"positions": "n", "positions_text": "0 .. len(x)-1"}, "INS": {"positions": "n+1", "positions_text": "0 .. len(x)"}})
+    check_generator(r, rule, _D + "hamming_neighbors", {"SUB": {"positions": "vp", "positions_text": "variable_positions, default range(len(x))"}})
+
+
 def check_bfs(r, rule):
     """_generate_neighbors is the breadth-first ball of DESIGN A.4: start {query: 0}; depth range covers [1, k]; every visited string is
     expanded (snapshot of the accumulating dict); only unseen strings are inserted, with the current depth; generator chosen by the flag."""
@@ -1025,6 +1034,8 @@ def _radius_ok(nn, q, rad):
     ok, found = False, "no radius argument"
     if rad is None:
         return ok, found
+    from ..rules import inline_new_module_vars
+    rad = rewrite(strip_all(rad), inline_new_module_vars(nn.r))
     if any(head(x) == "ite" for x in walk(rad)):
         return False, f"radius still depends on a condition after mode folding: {show(rad, 80)}"
     ctx = RFContext()
@@ -1933,6 +1944,7 @@ def check_candidates(r, prop, engines=("symdel", "hash", "kdtree"), cds=("none",
         check_symdel_pairs(r, prop + "-CAND", cds)
     if "hash" in engines:
         check_bfs(r, prop + "-CAND")
+        check_edit_generators(r, prop + "-CAND")
     if "kdtree" in engines:
         check_kd(r, prop + "-CAND", modes=cds)
         check_encoder(r, prop + "-CAND")
